@@ -36,7 +36,14 @@ class Ctx:
         self.pid, self.tier, self.seed, self.level = pid, tier, seed, level
         self.replay = replay
         self.timer = Timer()
-        self.outdir = os.path.join(OUT_ROOT, (pid if tier == "quick" else pid + "-" + tier) if not replay else pid + "_replay")
+        name = (pid if tier == "quick" else pid + "-" + tier) if not replay else pid + "_replay"
+        # runs against another tree (mutants, seeded changes) get their own scratch directory, so that they can run
+        # next to a check of /repo itself
+        tag = os.environ.get("VERIF_OUT_TAG") or (os.path.basename(os.environ["VERIF_REPO"].rstrip("/"))
+                                                  if os.environ.get("VERIF_REPO", "/repo").rstrip("/") != "/repo" else "")
+        if tag:
+            name += "@" + tag
+        self.outdir = os.path.join(OUT_ROOT, name)
         if os.path.isdir(self.outdir):
             # keep earlier violation replays (they are referenced by printed lines) but drop scratch
             for e in os.listdir(self.outdir):
